@@ -15,6 +15,10 @@
 //	 => <order of callbacks> <ok|ERR> <callbacks> E=<effective schedule> D=<survivors> R=<removed by the scanner>
 //	dlv <store> <period_s> <wait_s> <dates>            real StoreManager.Deliver of mails with their own Date: headers
 //	 => ok|ERR <surviving message numbers>             (past / future / none / garbled), wait, DoScan: arrival time decides
+//	slow <store> <period_s> <boxes> <mb>               a delivery to <mb> whose body reader parks after its first chunk (the
+//	 => <ok|ERR> D=<survivors> R=<removed, sorted>      message is half way into the store) while DoScan runs — to completion if the
+//	                                                    store lets it, else the reader is released after 200 ms —, then the rest arrives
+//	In every D= a survivor whose Source() cannot be opened or does not hold the delivered bytes is marked "<k>!".
 //	start <store> <period_s> <cancel_ms> <boxes>      cancel_ms < 0: never cancelled; >= 60000: Start's first scan
 //	 => returned|TIMEOUT D=<survivors>                  (one minute after Start) has run before the cancellation
 //
@@ -26,12 +30,14 @@ import (
 	"bytes"
 	"context"
 	"fmt"
+	"io"
 	"net/mail"
 	"os"
 	"path/filepath"
 	"sort"
 	"strconv"
 	"strings"
+	"sync"
 	"sync/atomic"
 	"time"
 
@@ -61,6 +67,8 @@ type drv struct {
 	ids       map[string][]string
 	rev       map[string]map[string]int
 	names     map[string]bool
+	content   map[string]string // mailbox NUL id -> the bytes delivered
+	seq       int
 	injs      []*inj
 	order     []string
 	callbacks int
@@ -81,20 +89,42 @@ type drv struct {
 
 func (d *drv) add(mb string, age int) {
 	date := time.Now().Add(-time.Duration(age) * time.Second)
+	d.seq++
+	content := fmt.Sprintf("Subject: s\r\n\r\nbody %d\r\n", d.seq)
 	id, err := d.inner.AddMessage(&message.Delivery{
 		Meta: event.MessageMetadata{Mailbox: mb, From: &mail.Address{Address: "f@x"}, To: []*mail.Address{{Address: "t@x"}},
 			Date: date, Subject: "s"},
-		Reader: bytes.NewReader([]byte("Subject: s\r\n\r\nbody\r\n")),
+		Reader: bytes.NewReader([]byte(content)),
 	})
 	if err != nil {
 		panic("add failed: " + err.Error())
 	}
+	d.register(mb, id, content)
+}
+
+func (d *drv) register(mb, id, content string) {
 	if d.rev[mb] == nil {
 		d.rev[mb] = map[string]int{}
 	}
 	d.rev[mb][id] = len(d.ids[mb])
 	d.ids[mb] = append(d.ids[mb], id)
 	d.names[mb] = true
+	d.content[mb+"\x00"+id] = content
+}
+
+// intact: the message's content can be opened and is what was delivered.
+func (d *drv) intact(mb string, m storage.Message) bool {
+	want, ok := d.content[mb+"\x00"+m.ID()]
+	if !ok {
+		return true
+	}
+	r, err := m.Source()
+	if err != nil {
+		return false
+	}
+	defer r.Close()
+	got, err := io.ReadAll(r)
+	return err == nil && string(got) == want
 }
 
 func (d *drv) idOf(mb string, k int) string {
@@ -251,6 +281,9 @@ func (d *drv) dump() string {
 			} else {
 				ks[i] = "?"
 			}
+			if !d.intact(mb, m) {
+				ks[i] += "!"
+			}
 		}
 		parts = append(parts, vh.HS(mb)+"="+strings.Join(ks, ":"))
 	}
@@ -304,7 +337,7 @@ func (d *drv) fill(boxes string) {
 }
 
 func newDrv(st storage.Store) *drv {
-	return &drv{inner: st, ids: map[string][]string{}, rev: map[string]map[string]int{}, names: map[string]bool{}}
+	return &drv{inner: st, ids: map[string][]string{}, rev: map[string]map[string]int{}, names: map[string]bool{}, content: map[string]string{}}
 }
 
 func runScan(in []string) []string {
@@ -379,6 +412,96 @@ func runScan(in []string) []string {
 		order = "none"
 	}
 	return []string{order, res, strconv.Itoa(d.callbacks), "E=" + strings.Join(d.eff, ","), d.dump(), "R=" + strings.Join(d.removed, ",")}
+}
+
+// gatedReader hands out head, then announces that the store has come back for more and waits for the
+// release before it hands out tail and EOF: a delivery whose body is still arriving.
+type gatedReader struct {
+	head, tail io.Reader
+	entered    chan struct{}
+	release    chan struct{}
+	once       sync.Once
+}
+
+func (g *gatedReader) Read(p []byte) (int, error) {
+	if n, err := g.head.Read(p); n > 0 || err != io.EOF {
+		return n, err
+	}
+	g.once.Do(func() { close(g.entered) })
+	<-g.release
+	return g.tail.Read(p)
+}
+
+// runSlow: slow <store> <period_s> <boxes> <mb>
+// A message for <mb> is handed to the real Store.AddMessage with a body reader that parks after its first chunk;
+// while it is parked the real DoScan runs. If the store makes the scanner wait for the delivery (the file store
+// holds the mailbox lock while it copies the body) the reader is released after 200 ms, otherwise after the scan
+// has completed. Whatever the store does: afterwards the expired messages are gone, the young ones and the new
+// one are listed, and the content of every listed message is the bytes delivered.
+func runSlow(in []string) []string {
+	st, cleanup := newStore(in[0])
+	defer cleanup()
+	period := vh.AtoI(in[1])
+	d := newDrv(st)
+	d.fill(in[2])
+	mb := vh.US(in[3])
+	head, tail := "Subject: s\r\n\r\nfirst half of a slow body\r\n", "second half of a slow body\r\n"
+	gr := &gatedReader{head: strings.NewReader(head), tail: strings.NewReader(tail), entered: make(chan struct{}), release: make(chan struct{})}
+	type result struct {
+		id  string
+		err error
+	}
+	delivered := make(chan result, 1)
+	go func() {
+		id, err := st.AddMessage(&message.Delivery{
+			Meta: event.MessageMetadata{Mailbox: mb, From: &mail.Address{Address: "f@x"}, To: []*mail.Address{{Address: "t@x"}},
+				Date: time.Now(), Subject: "s"},
+			Reader: gr,
+		})
+		delivered <- result{id, err}
+	}()
+	select {
+	case <-gr.entered:
+	case <-time.After(5 * time.Second):
+		close(gr.release)
+		return []string{"DELIVERY-NEVER-READ"}
+	}
+	rs := storage.NewRetentionScanner(config.Storage{RetentionPeriod: time.Duration(period) * time.Second}, &hookStore{Store: st, d: d})
+	scanned := make(chan error, 1)
+	go func() { scanned <- rs.DoScan(context.Background()) }()
+	res := "ok"
+	scanDone := false
+	select {
+	case err := <-scanned:
+		scanDone = true
+		if err != nil {
+			res = "ERR"
+		}
+	case <-time.After(200 * time.Millisecond):
+	}
+	close(gr.release)
+	var r result
+	select {
+	case r = <-delivered:
+	case <-time.After(5 * time.Second):
+		return []string{"DELIVERY-STUCK"}
+	}
+	if !scanDone {
+		select {
+		case err := <-scanned:
+			if err != nil {
+				res = "ERR"
+			}
+		case <-time.After(5 * time.Second):
+			return []string{"SCAN-STUCK"}
+		}
+	}
+	if r.err != nil {
+		return []string{"DELIVERERR", vh.HS(r.err.Error())}
+	}
+	d.register(mb, r.id, head+tail)
+	sort.Strings(d.removed)
+	return []string{res, d.dump(), "R=" + strings.Join(d.removed, ",")}
 }
 
 func runStart(in []string) []string {
@@ -481,6 +604,8 @@ func exec(kind string, in []string) []string {
 		return runScan(in)
 	case "start":
 		return runStart(in)
+	case "slow":
+		return runSlow(in)
 	case "dlv":
 		return runDeliver(in)
 	}
